@@ -113,6 +113,90 @@ def _sign_selectors(f):
     return out
 
 
+def _sign_of(e, signs):
+    """-1 / 1 / 0 / None (unknown) for an arithmetic expression, given the
+    signs of some names."""
+    if isinstance(e, ast.Constant) and isinstance(e.value, (int, float)) \
+            and not isinstance(e.value, bool):
+        return (e.value > 0) - (e.value < 0)
+    if isinstance(e, ast.Name):
+        return signs.get(e.id)
+    if isinstance(e, ast.UnaryOp) and isinstance(e.op, ast.USub):
+        v = _sign_of(e.operand, signs)
+        return None if v is None else -v
+    if isinstance(e, ast.UnaryOp) and isinstance(e.op, ast.UAdd):
+        return _sign_of(e.operand, signs)
+    if isinstance(e, ast.Call) and U(e.func) == "abs" and e.args:
+        return 1
+    if isinstance(e, ast.BinOp) and isinstance(
+            e.op, (ast.Mult, ast.FloorDiv, ast.Div)):
+        a, b = _sign_of(e.left, signs), _sign_of(e.right, signs)
+        if a is None or b is None:
+            return None
+        return a * b
+    if isinstance(e, ast.BinOp) and isinstance(e.op, ast.Mod):
+        return _sign_of(e.right, signs)
+    return None
+
+
+def _sign_safe(e, signs):
+    """No floor division of operands with opposite (or unknown) signs: the
+    quotient is then the truncated one, which is what a sign-magnitude
+    offset needs."""
+    for n in ast.walk(e):
+        if isinstance(n, ast.BinOp) and isinstance(n.op, ast.FloorDiv):
+            a, b = _sign_of(n.left, signs), _sign_of(n.right, signs)
+            if a is None or b is None or a * b < 0:
+                return False
+    return True
+
+
+def year_assembly(ctx):
+    """How _create_timepoint_from_info assembles the year it stores: the
+    decision table of the block that stores date_info["year"].
+    -> (function, [(path, stored value expression)], complete?) - complete
+    is False when a path skipped a loop or nothing was found."""
+    from ..dtable import explore
+    f = ctx.func("parsers.TimePointParser._create_timepoint_from_info")
+    block = None
+    for n in walk_no_nested(f.node):
+        if isinstance(n, ast.Assign) and isinstance(
+                n.targets[0], ast.Subscript) and isinstance(
+                    n.targets[0].slice, ast.Constant) and \
+                n.targets[0].slice.value == "year" and not isinstance(
+                    n.value, ast.Constant):
+            cur = n
+            while parent(cur) is not None and parent(cur) is not f.node:
+                cur = parent(cur)
+            block = cur
+    if block is None:
+        return f, [], False
+    stmts = block.body if isinstance(block, ast.If) else [block]
+    try:
+        paths = explore(stmts, max_paths=2000)
+    except AnalysisError:
+        return f, [], False
+    out = []
+    complete = True
+    for p in paths:
+        v = None
+        for k, x in p.env.items():
+            if k.startswith("@") and k.endswith("['year']"):
+                v = x
+        if v is None:
+            continue
+        if p.skipped:
+            complete = False
+        out.append((p, v))
+    return f, out, complete and bool(out)
+
+
+def _sum_terms(e):
+    if isinstance(e, ast.BinOp) and isinstance(e.op, ast.Add):
+        return _sum_terms(e.left) + _sum_terms(e.right)
+    return [e]
+
+
 def r26_sign_prop(ctx):
     rep = ctx.rep
     T = tables_of(ctx)
@@ -205,52 +289,60 @@ def r26_sign_prop(ctx):
                       sorted(set(numeric) - negated)), ("C07", "C06"))
     # (c) year sign applied once, last ----------------------------------------
     rule = "R26.year-sign"
-    f = ctx.func("parsers.TimePointParser._create_timepoint_from_info")
-    events = []     # (lineno, kind)
-    yv = None
-    for n in walk_no_nested(f.node):
-        if isinstance(n, ast.Assign) and isinstance(
-                n.targets[0], ast.Subscript) and isinstance(
-                    n.targets[0].slice, ast.Constant) and \
-                n.targets[0].slice.value == "year" and isinstance(
-                    n.value, ast.Name):
-            yv = n.value.id
-    if yv is None:
-        rep.error("R26", "_create_timepoint_from_info: store of the "
-                  "assembled year not found")
-        yv = "year"
-    for n in walk_no_nested(f.node):
-        if isinstance(n, ast.AugAssign) and U(n.target) == yv:
-            if isinstance(n.op, ast.Mult) and U(n.value) in ("-1", "(-1)"):
-                events.append((npos(n), "negate", n))
-            else:
-                events.append((npos(n), "accumulate", n))
-        elif isinstance(n, ast.Assign) and U(n.targets[0]) == yv:
-            if isinstance(n.value, ast.UnaryOp) and U(n.value.operand) == \
-                    yv:
-                events.append((npos(n), "negate", n))
-            else:
-                events.append((npos(n), "init", n))
-        elif isinstance(n, ast.Assign) and "['year']" in U(
-                n.targets[0]) and U(n.value) == yv:
-            events.append((npos(n), "store", n))
-    events.sort(key=lambda e: e[0])
-    kinds = [k for _, k, _ in events]
-    ok = kinds.count("negate") == 1 and kinds.count("store") == 1 and \
-        kinds.index("negate") == len(kinds) - 2 and kinds[-1] == "store" and \
-        "accumulate" in kinds
-    if ok:
-        neg = [e for e in events if e[1] == "negate"][0][2]
-        p = parent(neg)
-        ok = isinstance(p, ast.If) and "year_sign" in U(p.test) and \
-            "'-'" in U(p.test)
-    rep.check(ok, rule, ctx.fkey(f, None, "negate-last"), f.loc(),
-              "the year sign is applied once, after century, "
-              "year-of-century, decade and expanded digits were summed, and "
-              "nothing touches the year before it is stored",
-              "year assembly order is %s: the sign must be applied exactly "
-              "once, after every part was added and directly before the "
-              "store" % kinds, ("C07",))
+    f, stored, complete = year_assembly(ctx)
+    key_ = ctx.fkey(f, None, "negate-last")
+    if not complete:
+        rep.undecided(rule, key_, f.loc(),
+                      "the assembly of the stored year is not tabulated "
+                      "(not found as an item store, or behind a loop)",
+                      ("C07",))
+    else:
+        def sign_atom(a):
+            return "year_sign" in a and "'-'" in a
+        groups = {}
+        problems = []
+        for p_, v in stored:
+            sa_ = [(a, val) for a, val in p_.decisions.items()
+                   if sign_atom(a)]
+            rest = frozenset((a, val) for a, val in p_.decisions.items()
+                             if not sign_atom(a))
+            if len(sa_) != 1:
+                problems.append("the sign is %s on a path" % (
+                    "not tested" if not sa_ else "tested twice"))
+                continue
+            groups.setdefault(rest, {})[sa_[0][1]] = v
+        for rest, pair in groups.items():
+            if set(pair) != {True, False}:
+                continue
+            pos, neg = U(pair[False]), pair[True]
+            whole = False
+            if isinstance(neg, ast.UnaryOp) and isinstance(
+                    neg.op, ast.USub) and U(neg.operand) == pos:
+                whole = True
+            elif isinstance(neg, ast.BinOp) and isinstance(
+                    neg.op, ast.Mult) and (
+                        (U(neg.left) == pos and U(neg.right) in (
+                            "-1", "(-1)")) or
+                        (U(neg.right) == pos and U(neg.left) in (
+                            "-1", "(-1)"))):
+                whole = True
+            if not whole:
+                problems.append("under '-' the stored year is %s, not the "
+                                "negation of the whole sum %s" % (
+                                    U(neg)[:80], pos[:80]))
+            parts = " ".join(U(t) for t in _sum_terms(pair[False]))
+            for need in ("'year_of_century'", "'century'",
+                         "'expanded_year'"):
+                if need not in parts:
+                    problems.append("the part %s is not in the sum" % need)
+        if not groups and not problems:
+            problems.append("no stored year found")
+        rep.check(not problems, rule, key_, f.loc(),
+                  "the stored year is the sum of all its parts, negated as a "
+                  "whole exactly under a '-' sign (%d paths)" % len(stored),
+                  "year assembly: %s - the sign must be applied exactly "
+                  "once, to the whole sum, directly before the store" %
+                  "; ".join(sorted(set(problems))[:3]), ("C07",))
     # (d) local offset: both components depend on the sign ---------------------
     rule = "R26.local-offset"
     f = ctx.func("timezone.get_local_time_zone")
@@ -269,6 +361,45 @@ def r26_sign_prop(ctx):
         okd = all(deps) and sign_ok
         why = "hours depends on sign: %s, minutes depends on sign: %s" % (
             deps[0], deps[1])
+    elif len(rets) > 1 and all(isinstance(r.value, ast.Tuple) and len(
+            r.value.elts) == 2 for r in rets):
+        # one return per sign of the offset: every pair is computed where
+        # the sign of the quantity it divides is known
+        from ..flow import path_conds as _pcs, zero_relations
+        covered = []
+        notes = []
+        for r in rets:
+            rels = zero_relations(_pcs(r))
+            used = {x.id for x in ast.walk(r.value)
+                    if isinstance(x, ast.Name)}
+            signs = {}
+            for sj, rel in rels:
+                if sj in used:
+                    signs[sj] = -1 if rel in ("<", "<=") else 1
+            if not signs:
+                covered.append(False)
+                notes.append("a pair is returned where the sign of the "
+                             "offset is not known")
+                continue
+            hours, minutes = r.value.elts
+            ok_h = _sign_safe(hours, signs)
+            ok_m = False
+            if isinstance(minutes, ast.BinOp) and isinstance(
+                    minutes.op, ast.Mod):
+                ok_m = _sign_of(minutes.right, signs) == \
+                    list(signs.values())[0]
+            elif isinstance(minutes, ast.UnaryOp) and isinstance(
+                    minutes.op, ast.USub):
+                ok_m = _sign_safe(minutes.operand, signs)
+            covered.append(bool(ok_h and ok_m))
+            if not ok_h:
+                notes.append("hours `%s` floors a quotient of operands of "
+                             "opposite sign" % U(hours))
+            if not ok_m:
+                notes.append("minutes `%s` is not a remainder whose modulus "
+                             "has the sign of the offset" % U(minutes))
+        okd = all(covered)
+        why = "; ".join(notes) or "each pair is computed under a known sign"
     rep.check(okd, rule, ctx.fkey(f, None, "both-signed"), f.loc(),
               "both returned components are computed through the sign of "
               "the offset (floor division of a negative offset cannot leak "
@@ -359,7 +490,9 @@ def r26_sign_prop(ctx):
                             (".search", ".match")):
                     matchvar = U(st.targets[0])
             for x in ast.walk(n):
-                if not isinstance(x, ast.Continue):
+                # (an explicit refusal after the match is a skipped match
+                # just the same)
+                if not isinstance(x, (ast.Continue, ast.Raise)):
                     continue
                 ok_ = False
                 for t, pol in path_conds(x, stop=n):
@@ -367,9 +500,11 @@ def r26_sign_prop(ctx):
                     if (pol and tt == "not %s" % matchvar) or (
                             not pol and tt == matchvar):
                         ok_ = True      # no match: try the next regex
-                    if pol and re.fullmatch(r"\w+ is None", tt):
+                    if isinstance(x, ast.Continue) and pol and \
+                            re.fullmatch(r"\w+ is None", tt):
                         ok_ = True      # group absent from the match
-                    if not pol and re.fullmatch(r"\w+ is not None", tt):
+                    if isinstance(x, ast.Continue) and not pol and \
+                            re.fullmatch(r"\w+ is not None", tt):
                         ok_ = True
                 if not ok_:
                     conds = " and ".join(("" if pol else "not ") + U(t)
@@ -884,6 +1019,46 @@ def r27_dur_table(ctx):
                             n.value, ast.Attribute):
             mapping.setdefault(n.targets[0].slice.value, set()).add(
                 n.value.attr)
+    # ... or, independent of how the mapping is filled: what each key
+    # holds at the return, on every path of the branch (decision table)
+    from ..dtable import explore as _explore_dt
+    branch = None
+    for n in walk_no_nested(pf.node):
+        if isinstance(n, ast.Assign) and isinstance(
+                n.value, ast.Call) and "parse_timepoint_expression" in U(
+                    n.value.func):
+            cur = n
+            while isinstance(parent(cur), ast.Try):
+                cur = parent(cur)
+            par_ = parent(cur)
+            for fld in ("body", "orelse"):
+                blk = getattr(par_, fld, None)
+                if isinstance(blk, list) and cur in blk:
+                    branch = blk[blk.index(cur):]
+    if branch is not None:
+        try:
+            paths_ = _explore_dt(branch)
+        except AnalysisError:
+            paths_ = []
+        table, complete_ = {}, bool(paths_)
+        for p_ in paths_:
+            if p_.outcome != "return":
+                continue
+            if p_.skipped:
+                complete_ = False
+            for nm in rm_names:
+                d0 = p_.env.get(nm)
+                if isinstance(d0, ast.Dict):
+                    for k, v in zip(d0.keys, d0.values):
+                        if isinstance(k, ast.Constant) and isinstance(
+                                v, ast.Attribute):
+                            table.setdefault(k.value, set()).add(v.attr)
+                for k, v in p_.env.items():
+                    m_ = re.fullmatch(r"@%s\['(\w+)'\]" % re.escape(nm), k)
+                    if m_ and isinstance(v, ast.Attribute):
+                        table.setdefault(m_.group(1), set()).add(v.attr)
+        if complete_ and table:
+            mapping = table
     want = {"years": {"_year"}, "months": {"_month_of_year"},
             "days": {"_day_of_month", "_day_of_year"},
             "hours": {"_hour_of_day"}, "minutes": {"_minute_of_hour"},
